@@ -323,6 +323,17 @@ let step_preds : (string * (vconfig -> fstep -> bool)) list = [
   ("c02_zero_window_waker", c02_zero_window_waker);
   ("c02_timer_ok", c02_timer_ok);
   ("c02_rto_armed", c02_rto_armed);
+  ("c05_window_ok", c05_window_ok);
+  ("c05_zero_window_ok", c05_zero_window_ok);
+  ("c05_rto_single_ok", c05_rto_single_ok);
+  ("c05_monitor_ok", c05_monitor_ok);
+  ("c05_zero_window_strict", c05_zero_window_strict);
+  ("c05_d16_class_neg", (fun c st -> not (c05_d16_class c st)));
+  ("c05_zero_window_strict_or_d16", (fun c st -> c05_zero_window_strict c st || c05_d16_class c st));
+  ("c06_backoff_ok", c06_backoff_ok);
+  ("c06_cap_ok", c06_cap_ok);
+  ("c06_emitted_live_ok", c06_emitted_live_ok);
+  ("c06_fast_retx_ok", c06_fast_retx_ok);
   ("c17_synack_ok", c17_synack_ok);
   ("c17_fin_after_data_ok", c17_fin_after_data_ok);
   ("c17_fin_number_step_ok", c17_fin_number_step_ok);
@@ -338,6 +349,8 @@ let step_preds : (string * (vconfig -> fstep -> bool)) list = [
 let trace_preds : (string * (vconfig -> fstep list -> bool)) list = [
   ("c10_step_ok", c10_step_ok);
   ("c02_prompt", c02_prompt);
+  ("c06_stable_plen_ok", c06_stable_plen_ok);
+  ("c06_joint_ok", c06_joint_ok);
   ("c17_fin_seq_ok", c17_fin_seq_ok);
   ("c17_peer_fin_ok", c17_peer_fin_ok);
   ("c17_reset_trace_ok", c17_reset_trace_ok);
@@ -347,20 +360,27 @@ let trace_preds : (string * (vconfig -> fstep list -> bool)) list = [
   ("c10_closed_pending_class", c10_closed_pending_class);
 ]
 
-(* vsock_pred <name> <case tokens> | <observations> *)
+(* vsock_pred <name>[+<name>...] <case tokens> | <observations>
+   several predicates may be evaluated on the same trace: the first failing one is reported *)
+let run_one_pred name cfg steps =
+  match List.assoc_opt name step_preds, List.assoc_opt name trace_preds with
+  | Some p, _ ->
+    let rec first i = function
+      | [] -> None
+      | st :: r -> if p cfg st then first (i + 1) r else Some i in
+    (match first 0 steps with None -> None | Some i -> Some (Printf.sprintf "FAIL %s step=%d" name i))
+  | None, Some p -> if p cfg steps then None else Some ("FAIL " ^ name)
+  | None, None -> failwith ("vsock_pred: unknown predicate " ^ name)
+
 let run_vsock_pred toks =
   match toks with
-  | name :: rest ->
+  | names :: rest ->
     let (case, obs) = split_bar [] rest in
     let (cfg, steps) = steps_of case obs in
-    (match List.assoc_opt name step_preds, List.assoc_opt name trace_preds with
-     | Some p, _ ->
-       let rec first i = function
-         | [] -> None
-         | st :: r -> if p cfg st then first (i + 1) r else Some i in
-       (match first 0 steps with None -> "OK" | Some i -> Printf.sprintf "FAIL %s step=%d" name i)
-     | None, Some p -> if p cfg steps then "OK" else "FAIL " ^ name
-     | None, None -> failwith ("vsock_pred: unknown predicate " ^ name))
+    let rec go = function
+      | [] -> "OK"
+      | n :: r -> (match run_one_pred n cfg steps with None -> go r | Some f -> f) in
+    go (String.split_on_char '+' names)
   | _ -> failwith "vsock_pred: bad case"
 
 (* vsock_pred_all <name,name,...> : <case tokens> | <observations> — first failing predicate *)
